@@ -387,7 +387,7 @@ var metas = ev.NewCheck("C15", "constructors",
 	"rapid: the 9 text constructors with arbitrary bytes of length 0..20000 (biased to 127/128/129/16383/16384), MetaSequencerData 1..20000 bytes, SMPTE offset fields, time signatures numerator 0..255 x denominator 1..128 (powers of two) x clocks x 32nds (0 = documented shorthand for 8), MetaMeter, tempi as every 24-bit microseconds-per-quarter value (sampled) and random BPM 3.58..6e7; oracle: message is FF/type/canonical VLQ/payload with exact length by the harness parser, exactly the matching accessor accepts, accessor returns the arguments (tempo within 0.5 us per quarter); non-trivial = payload >= 128 bytes or a non-text constructor; distinct by case hash",
 	genCase, run)
 
-func TestPropConstructors(t *testing.T) { metas.Rapid(t, 1500, 100000) }
+func TestPropConstructors(t *testing.T) { metas.Rapid(t, 4000, 100000) }
 
 var enum = ev.NewCheck("C15", "enumerations",
 	"exhaustive: MetaChannel and MetaPort 0..255, MetaSequenceNo 0..65535, MetaKey for all (accidentals 0..7, flat/sharp, major/minor) x ignored key argument {0,5,11}, all 26 named key constructors (expected tonic/accidentals derived from the key's name by the circle of fifths; String() must be the name), time signatures all numerators x 8 denominators; thorough: MetaTempo for all 2^24-1 field values, sharded (quick: stride 257); oracle as above; all cases non-trivial, distinct by construction",
